@@ -772,7 +772,7 @@ func main() {
 	runner.Main(runner.Spec{
 		ID:    "C08",
 		Level: "model_checking",
-		Rule: "the compiler packages are rewritten so that every `range` over a map (14 sites) and the package directory listing return their keys in an order chosen by the harness (canonical = sorted; alternatives = all n! orders for n <= 4 keys, else reversal, rotations, adjacent transpositions). For 10 (thorough 11) programs importing 1..4 packages with package-level vars/consts (incl. a multi-file package, a nested import, two different packages with the same base name, one constant value used at several sizes and signednesses, multiplications/divisions at many widths, and two repository packages) EVERY compilation with one deviating range event, every compilation with two deviating events (quick: restricted to the first two alternative orders of each event; thorough: all alternatives; the 34-event crypto program: first three) and, thorough only, every compilation with three deviating events each taking one of its first two alternative orders, is executed and compared byte for byte (circuit, SSA listing, I/O description, error) with the canonical compilation; every history of <= 1 (thorough 2) earlier compilations on the same Compiler instance and on shared Params; each program once more in a separate process. Application level: apps/garbled built unmodified from the tree; every history of <= 2 sessions plus the shrinking/growing/returning triples (thorough: every history of <= 3 over 4 sizes) of garbler processes against one long-running evaluator process (both must print the result the program computes); every ordered selection of 1..3 of 4 programs compiled by one `garbled -circ -ssa` invocation must give the files a single-file invocation gives. " +
+		Rule: "the compiler packages are rewritten so that every `range` over a map (14 sites) and the package directory listing return their keys in an order chosen by the harness (canonical = sorted; alternatives = all n! orders for n <= 4 keys, else reversal, rotations, adjacent transpositions). For 10 (thorough 11) programs importing 1..4 packages with package-level vars/consts (incl. a multi-file package, a nested import, two different packages with the same base name, one constant value used at several sizes and signednesses, multiplications/divisions at many widths, and two repository packages) EVERY compilation with one deviating range event, every compilation with two deviating events (quick: restricted to the first two alternative orders of each event; thorough: all alternatives; the 34-event crypto program: first three) and, thorough only, every compilation with three deviating events each taking one of its first two alternative orders, is executed and compared byte for byte (circuit, SSA listing, I/O description, error) with the canonical compilation; every history of <= 1 (thorough 2) earlier compilations on the same Compiler instance and on shared Params; each program once more in a separate process. A free-running pass compiles four programs concurrently in eight goroutines on unmodified code under the race detector (no report; every result equal to the sequential one). Application level: apps/garbled built unmodified from the tree; every history of <= 2 sessions plus the shrinking/growing/returning triples (thorough: every history of <= 3 over 4 sizes) of garbler processes against one long-running evaluator process (both must print the result the program computes); every ordered selection of 1..3 of 4 programs compiled by one `garbled -circ -ssa` invocation must give the files a single-file invocation gives. " +
 			"For this level: states = distinct (program, deviation set) explored, transitions = range events executed, traces_validated = compilations run on the real compiler",
 		Assumptions: []string{
 			"map iteration order, directory listing order and earlier in-process compilations are the only nondeterminism sources considered (no goroutines, clocks or addresses influence the compiler's output: checked by the separate-process comparison)",
